@@ -6,7 +6,9 @@ becomes a precondition on its parameter that every call site in the library must
 exported entry points).  Conformance of the normalisation / folding results to the Unicode standard is value-level and NOT decided."""
 import os
 from ..ir import Program
-from .. import frontend, api, capcheck, par
+from .. import frontend, api, capcheck, par, intervals
+from ..ir import return_sites, global_roots
+from ..derive import derive, labels_of
 
 UNICODE_MAX = 0x10FFFF
 MIN_TABLE_ACCESSES = 3
@@ -32,6 +34,83 @@ def plane_accesses(fn, res):
             src = fn.defs[src["id"]]["ops"][0]
         pidx = fn.param_index(fn.params[src["id"]]["name"]) if src.get("k") == "v" and src["id"] in fn.params else None
         out.append((x, pidx))
+    return out
+
+
+def fold_agreement(ck, prog, report, announcer="iswfc", emitter="_towfc_s_chk"):
+    """clause: the number of characters towfc_s emits for a multi-character folding equals what iswfc announces.
+    iswfc touches its argument only through comparisons with constants: its decision tree is evaluated over the interval partition those
+    constants induce (sa/intervals.py), giving the exact sets of code points announced as 2 and as 3.  towfc_s searches sorted constant
+    tables; a hit in table T stores one element per folded character of the row plus the terminator and returns that count.
+    Decided: announced set for k == first column of the k-character table, tables strictly ascending (the search stops at the first larger key),
+    hit blocks store k+1 elements and return k."""
+    fa, fe = prog.funcs.get(announcer), prog.funcs.get(emitter)
+    if fa is None or fe is None:
+        ck.fail_broken("fold agreement: %s / %s not found" % (announcer, emitter)); return {}
+    arg = fa.j["params"][0]["id"]
+    try:
+        parts = intervals.classify(fa, arg, 0, (1 << 32) - 1)
+    except intervals.Unsupported as e:
+        ck.fail_broken("fold agreement: %s is not a comparison-only classification: %s" % (announcer, e)); return {}
+    announced = {}
+    for (lo, hi, v) in parts:
+        if isinstance(v, int) and v >= 2:
+            if hi - lo > 4096:
+                report("C17:fold-announced-range:%s:%x-%x" % (announcer, lo, hi), "F-announced-equals-emitted", "%s:%s" % (fa.file, fa.line),
+                       "%s announces %d characters for the whole range U+%04X..U+%04X" % (announcer, v, lo, hi))
+                continue
+            announced.setdefault(v, set()).update(range(lo, hi + 1))
+    # emitter side: constant tables it reads, per row width
+    out = dict(intervals=len(parts), announced={k: len(v) for k, v in announced.items()}, tables={})
+    dest = fe.pnames.get("dest")
+    der = derive(fe, {dest["id"]: "d"}) if dest else {}
+    tables = {}
+    A = capcheck.Analysis(fe)
+
+    def table_of(i):
+        r = A.ptr(i["ops"][0])[0]
+        return r[1:] if r and r.startswith("@") else None
+    for i in fe.insts():
+        if i["op"] == "load":
+            n = table_of(i)
+            g = fe.mod["gmap"].get(n) if n else None
+            if g and g.get("table") and len(g["table"][0]) >= 3:
+                tables[n] = g
+    if not tables:
+        ck.fail_broken("fold agreement: %s reads no constant multi-column table" % emitter); return out
+    emitted = {}
+    for n, g in sorted(tables.items()):
+        rows = [r for r in g["table"] if r[0] != 0]
+        k = len(g["table"][0]) - 1
+        keys = [r[0] for r in rows]
+        if any(a >= b for a, b in zip(keys, keys[1:])):
+            report("C17:fold-table-unsorted:%s" % n, "F-announced-equals-emitted", "%s:%s" % (fe.file, g.get("line")),
+                   "table %s is not strictly ascending in its key column: the search in %s stops at the first larger key and misses later rows" % (n, emitter))
+        if g["table"][-1][0] != 0:
+            report("C17:fold-table-unterminated:%s" % n, "F-announced-equals-emitted", "%s:%s" % (fe.file, g.get("line")), "table %s lacks its zero sentinel row" % n)
+        emitted.setdefault(k, set()).update(keys)
+        # the hit block: loads of the k folded characters of this table, k+1 stores into dest, return k
+        hit = None
+        for b in fe.j["blocks"]:
+            lds = [i for i in b["insts"] if i["op"] == "load" and table_of(i) == n]
+            sts = [i for i in b["insts"] if i["op"] == "store" and labels_of(i["ops"][1], der, None)]
+            if len(lds) >= k and sts:
+                hit = (b, lds, sts)
+        if hit is None:
+            ck.fail_broken("fold agreement: no block of %s copies a row of %s into dest" % (emitter, n)); continue
+        b, lds, sts = hit
+        rets = [o["v"] for (o, bb) in return_sites(fe) if bb == b["id"] and o is not None and o.get("k") == "c"]
+        out["tables"][n] = dict(rows=len(rows), characters=k, stores_in_hit_block=len(sts), returns=rets)
+        if len(sts) != k + 1 or rets != [k]:
+            report("C17:fold-emits-other-count:%s" % n, "F-announced-equals-emitted", fe.loc(sts[0]),
+                   "%s: a hit in %s (rows of %d folded characters) stores %d elements and returns %s" % (emitter, n, k, len(sts), rets))
+    for k in sorted(set(announced) | set(emitted)):
+        a, e = announced.get(k, set()), emitted.get(k, set())
+        if a != e:
+            only_a, only_e = sorted(a - e)[:4], sorted(e - a)[:4]
+            report("C17:fold-count-disagrees:%d:%s" % (k, ",".join("%X" % x for x in (only_a + only_e)[:4])), "F-announced-equals-emitted", "%s:%s" % (fa.file, fa.line),
+                   "%s announces %d characters for %s but %s's %d-character table holds %s: a destination sized from the announcement does not fit / is wasted"
+                   % (announcer, k, ["U+%04X" % x for x in only_a] or "nothing extra", emitter, k, ["U+%04X" % x for x in only_e] or "nothing extra"))
     return out
 
 
@@ -92,14 +171,19 @@ def run(ck):
         work = nxt
     if n_acc < MIN_TABLE_ACCESSES:
         ck.fail_broken("only %d plane-table accesses found (< %d): anchors vanished" % (n_acc, MIN_TABLE_ACCESSES))
+    fold = fold_agreement(ck, prog, ck.report)
+    if sum(fold.get("announced", {}).values()) < 100:
+        ck.fail_broken("fold agreement: fewer than 100 code points announced as multi-character foldings (%s)" % fold.get("announced"))
     fx = selftest(ck)
     ob = n_acc + n_sites
     cov = dict(explanation="%d loads from constant tables indexed by (code point >> 16) were found in src/extwchar; %d are bounded inside the function; for the others the bound "
-               "cp <= 0x10FFFF is required at every call site of the lookup helper (%d call-site obligations, followed through internal callers' parameters)." % (n_acc, n_ok, n_sites),
+               "cp <= 0x10FFFF is required at every call site of the lookup helper (%d call-site obligations, followed through internal callers' parameters). Fold agreement: iswfc's decision tree, evaluated over the interval partition induced by its own "
+               "comparison constants, announces 2 resp. 3 characters for exactly the key columns of towfc_s's 2- resp. 3-character tables; the tables are strictly ascending and "
+               "zero-terminated; a hit stores k+1 elements and returns k." % (n_acc, n_ok, n_sites),
                obligations=ob, discharged=ob - len({r["key"] for r in ck.reports}), table_accesses=n_acc, bounded_in_place=n_ok, call_site_obligations=n_sites,
-               helpers_relying_on_callers={k: sorted(v) for k, v in need.items()}, fixtures=fx, frontend=info,
+               helpers_relying_on_callers={k: sorted(v) for k, v in need.items()}, fold_agreement=fold, fixtures=fx, frontend=info,
                summary="%d plane-table accesses, %d call-site obligations" % (n_acc, n_sites))
-    return ck.finish(cov, ["only the table-index clause is decided; UAX #15 conformance, idempotence and iswfc/towfc_s agreement are not", "32-bit wchar_t configuration"])
+    return ck.finish(cov, ["decided: the table-index clause and the iswfc/towfc_s agreement for multi-character foldings; UAX #15 conformance, idempotence and the single-character (libc towlower/iswupper) cases are not", "32-bit wchar_t configuration"])
 
 
 def selftest(ck):
@@ -114,4 +198,13 @@ def selftest(ck):
         out[n] = dict(accesses=len(acc), bounded=ok)
         if ok != want or not acc:
             ck.fail_broken("fixture c17.c:%s: accesses=%d bounded=%s" % (n, len(acc), ok))
+    class Sink:
+        def __init__(s): s.broken = []
+        def fail_broken(s, m): s.broken.append(m)
+    for ann, want in (("fx17_isw_good", False), ("fx17_isw_forgets", True)):
+        got, sk = [], Sink()
+        r = fold_agreement(sk, prog, lambda key, *a, **k: got.append(key), announcer=ann, emitter="fx17_tow_chk")
+        out[ann] = dict(announced=r.get("announced"), reports=got)
+        if sk.broken or not r.get("tables") or bool(got) != want:
+            ck.fail_broken("fixture c17.c:%s: fold agreement %s (%s)" % (ann, "did not fire" if want else "fired on conforming code", sk.broken or got))
     return out
